@@ -429,6 +429,7 @@ func finish(p *propDef, id, tier string, seed int, t0 time.Time, njobs int, m *m
 	var confirmedV []Viol
 	nviol := 0
 	nospSeen := 0
+	watchdogFalse := 0
 	for i := range fresh {
 		v := &fresh[i]
 		if len(confirmed) >= 5 {
@@ -462,14 +463,24 @@ func finish(p *propDef, id, tier string, seed int, t0 time.Time, njobs int, m *m
 			out, _ := cmd.Output()
 			timedOut := ctx.Err() != nil
 			cancel()
-			if timedOut && v.Kind == "hang" && v.Site == "no scheduling point" {
-				continue // the replay stops reaching scheduling points as well
+			if nosp {
+				if timedOut {
+					continue // the replay stops reaching scheduling points as well: confirmed
+				}
+				// the watchdog fired but the same execution terminates when replayed (a starved or paused
+				// worker): not a verdict; the job is reported as not exhaustively explored
+				ok = false
+				watchdogFalse++
+				break
 			}
 			if strings.TrimSpace(string(out)) != strings.TrimSpace(v.Sig()) {
 				ok = false
 				fmt.Printf("ERROR: violation of %s in job %s did not reproduce identically on replay %d (got %q want %q)\n", id, v.Job, k+1, strings.TrimSpace(string(out)), v.Sig())
 				break
 			}
+		}
+		if !ok && nosp {
+			continue
 		}
 		if !ok {
 			return 2
@@ -495,6 +506,10 @@ func finish(p *propDef, id, tier string, seed int, t0 time.Time, njobs int, m *m
 		"bounds_completed":              bounds,
 		"counters":                      extra,
 		"known_findings_met":            len(knownHit),
+	}
+	if watchdogFalse > 0 {
+		exhaustive = false
+		caps["watchdog_not_reproduced"] = true
 	}
 	if !exhaustive {
 		var cs []string
